@@ -24,5 +24,14 @@ run r5-3 C10 C11 C12 C13 C01 C05 C20
 run r6-1 C15 C02 C19 C16 C17
 run r6-2 C01 C14 C02 C15 C20 C11 C19
 run r6-3 C15 C16 C19 C02 C17 C05
+run r7-1 C09 C18 C04 C08 C05 C07 C06
+run r7-2 C08 C09 C18 C04 C19 C05
+run r7-3 C03 C04 C17 C06 C07 C08 C09 C18 C05
+run r8-1 C01 C02 C10 C11 C20 C05 C13
+run r8-2 C01 C20 C11 C02 C05 C10
+run r8-3 C11 C10 C12 C13 C05
+run r9-1 C02 C15 C19 C14 C16 C17 C05
+run r9-2 C14 C15 C16 C02 C05 C17 C07
+run r9-3 C14 C02 C15 C16
 mv $OUT.tmp $OUT
 awk -F'\t' '$3!=0' $OUT
